@@ -2,8 +2,8 @@ package rules
 
 func init() {
 	reg("C05", &PropSpec{
-		Rules:       []Rule{r("W1", RuleW1), r("W2", RuleW2), r("W3", RuleS1("W3")), r("K2p", RuleK2p), r("Q2", RuleQ2), r("CX1", RuleCX1), r("US1", RuleUS1), r("AP1", RuleAP1), r("R6", RuleR6)},
-		Explanation: "Decided on the extracted scanner automaton for all inputs: in each of the 160 states LF and CR take exactly the same arms and so do space and tab (W1: a state that told them apart would behave differently under LF/CR/CRLF or indentation rewriting); the comment sub-machine entered by startComment emits no lexeme event, moves no index, pushes nothing, accepts every byte, and leaves only by popping the frame that startComment pushed - line comments re-dispatch the terminating line end to the interrupted state, block comments do not (W2: comment transparency); in every reachable configuration at the start of a line outside lexemes and comments, a blank or a further line end is not an error arm (W3: blank lines and indentation cannot turn an accepted document into a rejected one at the scanner level). Not decided: the positions at which the grammar admits a comment, blank-line idempotence as a bisimulation, parenthesis equivalence (C06), quoting (C17). The description look-ahead treats LF/CR and space/tab alike and sees every keyword (K2p); Unquote precedes every other end-sensitive transformation of a parameter value (Q2). The handler of the opening parenthesis refuses no directive kind that can have children (CX1: evaluated per kind). A block comment is opened on the comment sign only and the comment machine is entered on the sign only (W2); no arm consumes a byte it has not looked at (US1). The unescaped parameter text is what the directive-kind tests see (AP1); no rejection of the context resolver depends on the placed directive's own parentheses (R6).",
+		Rules:       []Rule{r("W1", RuleW1), r("W2", RuleW2), r("W3", RuleS1("W3")), r("K2p", RuleK2p), r("Q2", RuleQ2), r("CX1", RuleCX1), r("US1", RuleUS1), r("AP1", RuleAP1), r("R6", RuleR6), r("PQ1", RulePQ1)},
+		Explanation: "Decided on the extracted scanner automaton for all inputs: in each of the 160 states LF and CR take exactly the same arms and so do space and tab (W1: a state that told them apart would behave differently under LF/CR/CRLF or indentation rewriting); the comment sub-machine entered by startComment emits no lexeme event, moves no index, pushes nothing, accepts every byte, and leaves only by popping the frame that startComment pushed - line comments re-dispatch the terminating line end to the interrupted state, block comments do not (W2: comment transparency); in every reachable configuration at the start of a line outside lexemes and comments, a blank or a further line end is not an error arm (W3: blank lines and indentation cannot turn an accepted document into a rejected one at the scanner level). Not decided: the positions at which the grammar admits a comment, blank-line idempotence as a bisimulation, parenthesis equivalence (C06), quoting (C17). The description look-ahead treats LF/CR and space/tab alike and sees every keyword (K2p); Unquote precedes every other end-sensitive transformation of a parameter value (Q2). The handler of the opening parenthesis refuses no directive kind that can have children (CX1: evaluated per kind). A block comment is opened on the comment sign only and the comment machine is entered on the sign only (W2); no arm consumes a byte it has not looked at (US1). The unescaped parameter text is what the directive-kind tests see (AP1); no rejection of the context resolver depends on the placed directive's own parentheses (R6). The scanner's own looks at a parameter lexeme unquote it first (PQ1).",
 		Trusted:     trustedCommon,
 	})
 	reg("C17", &PropSpec{
@@ -20,8 +20,9 @@ func init() {
 			r("US1", RuleUS1),
 			r("W2", RuleW2),
 			r("Z1", RuleZ1),
+			r("LX1", RuleLX1), r("NX1", RuleNX1),
 		},
-		Explanation: "The scanner's 160 step functions are read from the typed syntax as guarded arms (byte sets by set algebra), assembled into a pushdown system (stack = current step + stepStack) whose finite control abstracts the event stack and the distances begin/end offsets depend on; post* saturation computes every reachable (control, step) pair for ALL inputs, and on each the rules check: no end event without begin (S1b), end+1>=begin and inside the input (S1c), no unsigned underflow of curIndex-k (S1d), strictly increasing non-overlapping lexemes (S1f), only trivia skipped (S1g), no lexeme left open at end of input (S1i), spelled keywords == directive table (K2), body lexeme == library extent (LJ1), escape states take the escaped byte blindly (ES1). Decides the structural part; that the library's Len() delimits one value is trusted. Length helpers return only lengths obtained from the library; the comment machine is entered on the comment sign only (W2); no byte is consumed unseen (US1). The end-of-input sentinel never comes from the data: the driver tests every data byte against it (Z1).",
+		Explanation: "The scanner's 160 step functions are read from the typed syntax as guarded arms (byte sets by set algebra), assembled into a pushdown system (stack = current step + stepStack) whose finite control abstracts the event stack and the distances begin/end offsets depend on; post* saturation computes every reachable (control, step) pair for ALL inputs, and on each the rules check: no end event without begin (S1b), end+1>=begin and inside the input (S1c), no unsigned underflow of curIndex-k (S1d), strictly increasing non-overlapping lexemes (S1f), only trivia skipped (S1g), no lexeme left open at end of input (S1i), spelled keywords == directive table (K2), body lexeme == library extent (LJ1), escape states take the escaped byte blindly (ES1). Decides the structural part; that the library's Len() delimits one value is trusted. Length helpers return only lengths obtained from the library; the comment machine is entered on the comment sign only (W2); no byte is consumed unseen (US1). The end-of-input sentinel never comes from the data: the driver tests every data byte against it (Z1). The lexeme constructor stores the positions it is given (LX1) and the driver hands out a lexeme of the event processor only when there is one (NX1: a begin event's (nil, nil) is not the end of the file).",
 		Trusted:     trustedCommon,
 		Assume:      []string{"symbol 0 reaches a step function only as end of input (Scanner.Next rejects NUL; shape-checked)", "data-dependent predicates (isDirective, parameter look-back, data[cur-1]) may go either way"},
 	})
